@@ -339,7 +339,7 @@ MX_TEXT = st.builds(lambda a, m, z: (a + m + z) or "x", st.sampled_from(_EDGE + 
 def _cfg(text, **kw):
     base = dict(groups=SG.plain_groups(bases=ALLB, max_dots=4, tuplet_bases=ALLB), meters=METERS, octaves=list(range(0, 9)), max_pitch=200,
                 min_pitch=-20, max_bars=3, max_groups=6, max_tracks=3, text=text, partial_last=True, rest_p=4, empty_containers=True,
-                instruments=["none", "generic", "midi"], twin_p=4, share_instruments=True, subclass_p=8, unsorted_p=5, twin_entry_p=4, reuse_p=5)
+                instruments=["none", "generic", "midi"], twin_p=4, share_instruments=True, subclass_p=8, unsorted_p=5, twin_entry_p=4, reuse_p=5, equal_pitch_p=6)
     base.update(kw)
     return SG.Cfg(**base)
 
